@@ -14,6 +14,10 @@ struct Ops {
         explore<V, clear>(d3, &K);
         explore<V, negate>(d3, &K);
         explore<V, clamp>(d3, &K);
+        explore<V, blend_inserted_mask>(d2, &K);
+        explore<V, keep_inserted_mask>(d2, &K);
+        explore<V, clear_inserted_mask>(d2, &K);
+        explore<V, negate_inserted_mask>(d2, &K);
         explore<V, min>(d2, &K);
         explore<V, max>(d2, &K);
         explore<V, minmax_lo>(d2, &K);
@@ -35,6 +39,10 @@ struct Ops<V, true> {
         explore<V, clear>(d3, &K);
         explore<V, negate>(d3, &K);
         explore<V, clamp>(d3, &K);
+        explore<V, blend_inserted_mask>(d2, &K);
+        explore<V, keep_inserted_mask>(d2, &K);
+        explore<V, clear_inserted_mask>(d2, &K);
+        explore<V, negate_inserted_mask>(d2, &K);
         explore<V, min>(d2, &K);
         explore<V, max>(d2, &K);
         explore<V, minmax_lo>(d2, &K);
